@@ -18,6 +18,43 @@ F_FIND = z3.Function("first_at", SeqI, I, I, I)      # first_at(buf, c, p): leas
 F_PYINT = z3.Function("py_int", SeqI, I)             # int(<text>) when it is a numeral
 F_ISINT = z3.Function("py_is_int", SeqI, B)          # whether int(<text>) succeeds
 F_FILEDATA = z3.Function("file_data", SeqI, SeqI)    # content of the file named <name> (re-open by name)
+F_REMATCH = z3.Function("re_matches", I, z3.StringSort(), SeqI, B)
+F_REGROUP = z3.Function("re_group", I, z3.StringSort(), I, SeqI, SeqI)
+F_REGROUPNONE = z3.Function("re_group_is_none", I, z3.StringSort(), I, SeqI, B)
+
+
+def _group_optional(pat, k):
+    """can group k fail to participate in a match?  (syntactic: inside ?, *, {0,..} or an alternation)"""
+    import re._parser as sp
+    tree = sp.parse(pat.pattern, pat.flags)
+
+    def walk(items, optional):
+        for op, av in items:
+            nm = str(op)
+            if nm == "SUBPATTERN":
+                gid, _, _, sub = av
+                if gid == k:
+                    return optional
+                r = walk(sub, optional)
+                if r is not None:
+                    return r
+            elif nm in ("MAX_REPEAT", "MIN_REPEAT", "POSSESSIVE_REPEAT"):
+                lo, hi, sub = av
+                r = walk(sub, optional or lo == 0)
+                if r is not None:
+                    return r
+            elif nm == "BRANCH":
+                for alt in av[1]:
+                    r = walk(alt, True)
+                    if r is not None:
+                        return r
+            elif nm in ("ASSERT", "ASSERT_NOT"):
+                r = walk(av[1], True)
+                if r is not None:
+                    return r
+        return None
+    r = walk(tree, False)
+    return True if r is None else r
 
 
 class SpecLib:
@@ -28,6 +65,9 @@ class SpecLib:
         self.models = {}
         self.reals = []
         self.rec_specs = {}
+        self._pattern_ids = {}
+        self._patterns = {}
+        self.regex_facts = []
         self._install()
 
     # ------------------------------------------------------------------ registration helpers
@@ -142,7 +182,7 @@ class SpecLib:
         s = self.seqval(s)
         n = s.length()
         i = unwrap("int", idx)
-        if checked:
+        if checked and not ex.spec_mode:      # specifications are total (out of range: unspecified)
             if ex.branch(z3.Or(i >= n, i < -n)):
                 ex.raise_(IndexError, node=node)
         i = z3.simplify(z3.If(i < 0, i + n, i))
@@ -330,6 +370,8 @@ class SpecLib:
         """fresh value of a declared type, including model objects: ('obj', 'BinaryIO')"""
         if isinstance(ty, tuple) and ty[0] == "opt":
             return VOpt(z3.Bool(fresh_name(nm + "?none")), self.fresh_typed(ex, ty[1], nm))
+        if isinstance(ty, tuple) and ty[0] == "py":
+            return VPy(ty[1])
         if isinstance(ty, tuple) and ty[0] == "obj":
             if ty[1] == "BinaryIO":
                 data = VSeq("bytes", "int", z3.Const(fresh_name(nm + "_data"), SeqI))
@@ -533,13 +575,24 @@ class SpecLib:
 
         def b_ord(ex, a, kw):
             v = a[0]
-            if not isinstance(v, VSeq):
+            if isinstance(v, VOpt):
+                if ex.spec_mode:
+                    v = v.val
+                elif ex.branch(v.isnone):
+                    ex.raise_(TypeError)
+                else:
+                    v = v.val
+            if not isinstance(v, VSeq) or v.kind not in ("str", "bytes"):
                 ex.raise_(TypeError)
-            if ex.branch(v.length() != 1):
+            if v.pyval is not None:
+                if len(v.pyval) != 1:
+                    ex.raise_(TypeError)
+                return VInt(ord(v.pyval))
+            if not ex.spec_mode and ex.branch(v.length() != 1):
                 ex.raise_(TypeError)
-            return VInt(self.seq_index(ex, VSeq("bytes", "int", v._t, view=v.view, py=(
-                v.pyval.encode("latin-1", "replace") if isinstance(v.pyval, str) and all(ord(c) < 256 for c in v.pyval)
-                else v.pyval if isinstance(v.pyval, bytes) else None)), VInt(0), checked=False).t)
+            if v.view is not None:
+                return VInt(v.view[0][v.view[1]])
+            return VInt(v.t[0])
         B_["ord"] = b_ord
 
         def b_iter(ex, a, kw):
@@ -642,8 +695,34 @@ class SpecLib:
         B_["next"] = it_next
         M[("iter", "__next__")] = it_next
 
-        # ---- BinaryIO model (io.BytesIO / file opened 'rb'): state (data, pos)
+        # ---- compiled patterns and match objects
+        def p_match(how):
+            def f(ex, a, kw):
+                return self.re_match(ex, a[0].obj, a[1], how)
+            return f
+        for how in ("match", "fullmatch", "search"):
+            M[("pattern", how)] = p_match(how)
         MD = self.models
+
+        def m_groups(ex, a, kw):
+            mo = a[0]
+            n = mo.fields["pat"].obj.groups
+            return VTuple([self.re_group(ex, mo, k) for k in range(1, n + 1)])
+        MD[("Match", "groups")] = m_groups
+
+        def m_group(ex, a, kw):
+            mo = a[0]
+            if len(a) == 1:
+                return self.re_group(ex, mo, 0)
+            k = a[1]
+            if isinstance(k, VSeq) and k.pyval is not None:
+                k = mo.fields["pat"].obj.groupindex[k.pyval]
+            else:
+                k = k.py()
+            return self.re_group(ex, mo, k)
+        MD[("Match", "group")] = m_group
+
+        # ---- BinaryIO model (io.BytesIO / file opened 'rb'): state (data, pos)
 
         def io_read(ex, a, kw):
             self.use("BinaryIO.read")
@@ -720,10 +799,61 @@ class SpecLib:
             return NONE
         MD[("BinaryIO", "close")] = io_close
 
+    # ------------------------------------------------------------------ regular expressions
+    # A compiled pattern applied to a *symbolic* subject is modelled by uninterpreted functions of
+    # (pattern, subject): whether it matches and what each group captured.  Code and spec share
+    # them, so a proof about the control flow does not depend on the regex; what the pattern's
+    # language and groups are is the business of the rx lemmas (vf/rx), which are obligations of
+    # their own.  Facts a contract needs about the groups are supplied by `regex_facts`.
+    def pattern_id(self, pat):
+        key = (pat.pattern, pat.flags)
+        if key not in self._pattern_ids:
+            self._pattern_ids[key] = len(self._pattern_ids) + 1
+            self._patterns[self._pattern_ids[key]] = pat
+        return self._pattern_ids[key]
+
+    def re_match(self, ex, pat, subject, how="match"):
+        self.use("re.%s on symbolic text: uninterpreted (matches?, groups) of (pattern, subject); language facts from rx lemmas" % how)
+        pid = self.pattern_id(pat)
+        subj = subject
+        if isinstance(subj, VOpt):
+            if ex.branch(subj.isnone):
+                ex.raise_(TypeError)
+            subj = subj.val
+        if not isinstance(subj, VSeq):
+            ex.raise_(TypeError)
+        want = "bytes" if isinstance(pat.pattern, bytes) else "str"
+        if subj.kind != want:
+            ex.raise_(TypeError)
+        if subj.pyval is not None:
+            m = getattr(pat, how)(subj.pyval)
+            if m is None:
+                return NONE
+            return VObj("Match", {"pat": VPy(pat), "subject": subj, "real": VPy(m)}, fresh_name("m"))
+        ok = F_REMATCH(z3.IntVal(pid), z3.StringVal(how), subj.t)
+        mo = VObj("Match", {"pat": VPy(pat), "subject": subj, "how": VPy(how)}, fresh_name("m"))
+        for hook in self.regex_facts:
+            hook(ex, self, pat, pid, how, subj, ok)
+        return VOpt(z3.Not(ok), mo)
+
+    def re_group(self, ex, mo, k):
+        pat = mo.fields["pat"].obj
+        subj = mo.fields["subject"]
+        if "real" in mo.fields:
+            g = mo.fields["real"].obj.group(k)
+            return NONE if g is None else lift(g)
+        pid = self.pattern_id(pat)
+        how = mo.fields["how"].obj
+        t = F_REGROUP(z3.IntVal(pid), z3.StringVal(how), z3.IntVal(k), subj.t)
+        v = VSeq(subj.kind, "int", t)
+        if k == 0 or not _group_optional(pat, k):
+            return v
+        return VOpt(F_REGROUPNONE(z3.IntVal(pid), z3.StringVal(how), z3.IntVal(k), subj.t), v)
+
     def py_int(self, ex, v):
         self.use("int(text): uninterpreted py_int/py_is_int on the text (raises ValueError iff not py_is_int)")
         t = v.t
-        if ex.branch(z3.Not(F_ISINT(t))):
+        if not ex.spec_mode and ex.branch(z3.Not(F_ISINT(t))):
             ex.raise_(ValueError)
         return VInt(F_PYINT(t))
 
